@@ -94,7 +94,13 @@ func parseRestrict(s string) {
 		kv := strings.SplitN(part, "=", 2)
 		set := map[int]bool{}
 		for _, v := range strings.Split(kv[1], ",") {
-			var n int
+			var n, m int
+			if k, _ := fmt.Sscanf(strings.TrimSpace(v), "%d..%d", &n, &m); k == 2 {
+				for ; n <= m; n++ {
+					set[n] = true
+				}
+				continue
+			}
 			fmt.Sscanf(strings.TrimSpace(v), "%d", &n)
 			set[n] = true
 		}
@@ -250,6 +256,7 @@ func main() {
 		fmt.Printf("== %s [%s]: paths=%d forks=%d steps=%d asserts=%d (unsat=%d trivial=%d sat=%d) feas=%d queries=%d fallbacks=%d solver=%.2fs wall=%.2fs\n",
 			en, *restrictS, e.stats.paths, e.stats.forks, e.stats.steps, e.stats.asserts, e.stats.assertUnsat, e.stats.assertTrivial, e.stats.assertSat, e.stats.feas, solver.Queries, solver.Fallbacks, solver.Time.Seconds(), wall.Seconds())
 		fmt.Printf("   status: %v  reached: %v\n", res.Status, res.Reached)
+		fmt.Printf("   query ms: p50=%.1f p99=%.1f max=%.1f cache-hits=%d\n", res.QueryP50ms, res.QueryP99ms, res.QueryMaxms, e.stats.cacheHits)
 		if len(e.unsupported) > 0 {
 			fmt.Println("   UNSUPPORTED / INCONCLUSIVE:")
 			for k, v := range e.unsupported {
